@@ -551,8 +551,8 @@ class Interpolation(object):
                     y = self.__call__(x)
                 else:
                     x = x - y / yp
-                    # Check if x is within limits
-                    if x < xmin or x > xmax:
+                    # Check if x is within the current [xl, xh] bracket
+                    if x < xl or x > xh:
                         # Switch to linear interpolation
                         x = (xl * yh - xh * yl) / (yh - yl)
                         y = self.__call__(x)
